@@ -19,6 +19,7 @@ type seqEnv struct {
 	injected int
 	decide   chan dialOutcome
 	waiting  int
+	minimal  bool
 }
 
 // dial hook variant: the harness decides the outcome of each pending dial
@@ -84,6 +85,24 @@ func (e *seqEnv) timers() (ts []*time.Timer, names []string) {
 
 func (e *seqEnv) actions(light bool) []seqAction {
 	var as []seqAction
+	if e.minimal {
+		// two-connection menu: dial succeeds, one inbound connection, {OPEN, KEEPALIVE, FIN} on live connections
+		if e.waiting > 0 {
+			as = append(as, seqAction{kind: 0, name: "dial-ok"})
+		}
+		if e.injected < 1 {
+			as = append(as, seqAction{kind: 2, name: "inbound"})
+		}
+		for _, c := range e.all {
+			if c.closed || c.final {
+				continue
+			}
+			for _, m := range []int{saOpen, saKeepalive, saFin} {
+				as = append(as, seqAction{kind: 3, c: c, msg: m, name: "msg"})
+			}
+		}
+		return as
+	}
 	if e.waiting > 0 {
 		as = append(as, seqAction{kind: 0, name: "dial-ok"}, seqAction{kind: 1, name: "dial-refused"})
 	}
@@ -190,9 +209,11 @@ func (e *seqEnv) monitors() {
 	}
 }
 
-func seqRun(K int, light bool) {
+func seqRun(K int, light bool) { seqRunM(K, light, false) }
+
+func seqRunM(K int, light, minimal bool) {
 	verifEngineOnly()
-	e := &seqEnv{penv: newPenv(false), decide: make(chan dialOutcome)}
+	e := &seqEnv{penv: newPenv(false), decide: make(chan dialOutcome), minimal: minimal}
 	verifSeqEnv = e
 	e.dial.outcomes = nil
 	e.dial.mk = nil
@@ -234,4 +255,15 @@ func Verif_C01_event_sequences() {
 func VerifT_C01_event_sequences_full_menu() {
 	verifNote("as Verif_C01_event_sequences with the full action menu (also OPEN with unsupported version, corrupted marker, UPDATE, keep-alive timer expiry), 4 steps")
 	seqRun(4, false)
+}
+
+// C05: longer sequences over the two connections of one peer with a small action menu (stale manager
+// state after one connection ends must not crash or wedge the handling of the other)
+func Verif_C05_two_connection_sequences() {
+	K := 5
+	if verifTier() >= 1 {
+		K = 7
+	}
+	verifNote("event sequences of K steps (5 quick / 7 thorough) with the menu {dial succeeds, one inbound connection, on any live connection: valid OPEN / KEEPALIVE / FIN} and local/remote identifiers symbolic: no panic, no deadlock, manager invariants and callback monitors after every step, then stop")
+	seqRunM(K, true, true)
 }
